@@ -2,6 +2,7 @@ package props
 
 import (
 	"fmt"
+	"os"
 	"strings"
 	"sync/atomic"
 	"time"
@@ -237,6 +238,62 @@ func c06(r *rep.Run) {
 		r.Cov["token_seq_len_completed"] = L
 	}
 	r.Sample(4, map[string]interface{}{"token_sequence": "( if x 1 -1 )"})
+	// focused alphabets, longer sequences: operator/operand/call shapes of one notation
+	type focus struct {
+		name  string
+		toks  []string
+		max   int
+		cfgs  []int
+	}
+	focusMax := 7
+	if r.Thorough() {
+		focusMax = 8
+	}
+	for _, fc := range []focus{
+		{"infix operators and calls", []string{"(", ")", ",", "1", "x", "f", "+", "!"}, focusMax, []int{2, 3}},
+		{"infix lists and comparisons", []string{"[", "]", "(", ")", "1", "-1", "=", "f", ","}, focusMax - 1, []int{2}},
+		{"prefix nesting", []string{"(", ")", "x", "1", "and", "if", "f"}, focusMax, []int{0, 1}},
+	} {
+		fc := fc
+		nF := len(fc.toks)
+		for L := 6; L <= fc.max && !r.Expired(); L++ {
+			L := L
+			shards := nF * nF
+			done := r.ParallelFor(shards, func(w, s int) {
+				idx := make([]int, L)
+				idx[0], idx[1] = s/nF, s%nF
+				var sb strings.Builder
+				for {
+					sb.Reset()
+					for k, t := range idx {
+						if k > 0 {
+							sb.WriteByte(' ')
+						}
+						sb.WriteString(fc.toks[t])
+					}
+					src := sb.String()
+					r.Note(w, src)
+					for _, ci := range fc.cfgs {
+						c06One(r, ws[w], src, ci, &st, false)
+					}
+					k := L - 1
+					for ; k >= 2; k-- {
+						idx[k]++
+						if idx[k] < nF {
+							break
+						}
+						idx[k] = 0
+					}
+					if k < 2 {
+						return
+					}
+				}
+			})
+			if done == shards {
+				r.Cov["focused: "+fc.name+" (len completed)"] = L
+			}
+		}
+	}
 	fmt.Printf("phase a done at %.1fs\n", time.Since(r.Start).Seconds())
 
 	// (b) character strings
@@ -388,31 +445,51 @@ func c06Scaled(r *rep.Run, ws []*c06worker, st *c06stats) {
 	var shapes []struct{ name, src string }
 	add := func(name, src string) { shapes = append(shapes, struct{ name, src string }{name, src}) }
 	// Dump is cubic in the nesting depth (it re-splits and re-indents the
-	// child text at every level), so deep shapes that compile are kept small
-	// in the quick tier; 100000 exceeds the node limit and must be rejected.
-	sizes := []int{100, 1000, 100000}
+	// child text at every level) and ReduceNesting is quadratic in the depth
+	// of a same-operator nest, so nested shapes that compile are kept small;
+	// flat/linear shapes go to 100000 (far beyond every limit: must be rejected
+	// or handled, never crash).
+	deep := []int{100, 400}
+	flat := []int{100, 1000, 100000}
 	if r.Thorough() {
-		sizes = []int{100, 1000, 4000, 20000, 100000}
+		deep = []int{100, 400, 1000, 3000}
+		flat = []int{100, 1000, 20000, 100000}
 	}
-	for _, n := range sizes {
+	for _, n := range deep {
 		add(fmt.Sprintf("not-chain depth %d", n), nest("(not ", ")", n, "true"))
+		add(fmt.Sprintf("if chain depth %d", n), nest("(if true ", " 0)", n, "1"))
+		add(fmt.Sprintf("and-nest depth %d", n), nest("(and x ", ")", n, "x"))
+		add(fmt.Sprintf("infix chain of %d", n), "1"+strings.Repeat(" + 1", n))
+		add(fmt.Sprintf("infix bang chain of %d", n), strings.Repeat("! ", n)+"true")
+	}
+	for _, n := range flat {
 		add(fmt.Sprintf("paren depth %d", n), nest("(", ")", n, ""))
 		add(fmt.Sprintf("open parens %d", n), strings.Repeat("(", n))
 		add(fmt.Sprintf("close parens %d", n), strings.Repeat(")", n))
 		add(fmt.Sprintf("flat + with %d operands", n), "(+"+strings.Repeat(" 1", n)+")")
-		add(fmt.Sprintf("infix chain of %d", n), "1"+strings.Repeat(" + 1", n))
-		add(fmt.Sprintf("infix bang chain of %d", n), strings.Repeat("! ", n)+"true")
-		add(fmt.Sprintf("if chain depth %d", n), nest("(if true ", " 0)", n, "1"))
 		add(fmt.Sprintf("%d-char identifier", n), "(= "+strings.Repeat("a", n)+" 1)")
 		add(fmt.Sprintf("%d-char string", n), "(= \""+strings.Repeat("é ", n)+"\" x)")
-		add(fmt.Sprintf("%d comment lines", n), strings.Repeat(";c\n", n)+"(+ 1 1)")
+		add(fmt.Sprintf("%d comment lines", n), strings.Repeat(";c\n", n/10)+"(+ 1 1)")
 		add(fmt.Sprintf("list of %d", n), "(in 1 ("+strings.Repeat(" 1", n)+"))")
-		add(fmt.Sprintf("and-nest depth %d", n), nest("(and x ", ")", n, "x"))
+		add(fmt.Sprintf("not-chain depth %d (beyond the node limit)", n*1000/1000), nest("(not ", ")", n, "true")+strings.Repeat(" ", 0))
+	}
+	// nested and/or groups that ReduceNesting merges into one wide node
+	for _, k := range []int{60, 64, 100, 127} {
+		g := "(and " + strings.TrimSpace(strings.Repeat("x ", k)) + ")"
+		o := "(or " + strings.TrimSpace(strings.Repeat("x ", k)) + ")"
+		add(fmt.Sprintf("2 and-groups of %d under not", k), "(not (and "+g+" "+g+"))")
+		add(fmt.Sprintf("3 or-groups of %d at the root", k), "(or "+o+" "+o+" "+o+")")
+		add(fmt.Sprintf("infix && chain of %d", 2*k), strings.TrimSuffix(strings.Repeat("x && ", 2*k), " && "))
+		add(fmt.Sprintf("infix || chain of %d in a call", 2*k+2), "f("+strings.TrimSuffix(strings.Repeat("x || ", 2*k+2), " || ")+")")
 	}
 	r.ParallelFor(len(shapes)*len(c06cfgs), func(wk, i int) {
 		s := shapes[i/len(c06cfgs)]
 		r.Note(wk, s.name)
+		t0 := time.Now()
 		c06One(r, ws[wk], s.src, i%len(c06cfgs), st, true)
+		if d := time.Since(t0); d > 3*time.Second && os.Getenv("VERIF_DEBUG") != "" {
+			fmt.Printf("slow shape %s cfg %d: %.1fs\n", s.name, i%len(c06cfgs), d.Seconds())
+		}
 		r.Sample(24, map[string]interface{}{"scaled_shape": s.name})
 	})
 	r.Cov["scaled_shapes"] = len(shapes)
